@@ -176,8 +176,11 @@ def guard_hygiene(res):
             covered = set()
             for i, line in enumerate(lines):
                 if line.strip() != "#[cfg(hpke_verif)]":
-                    if "#[cfg(hpke_verif)]" in line and not line.strip().startswith("//"):
-                        misuse.append(f"{os.path.relpath(p, REPO)}:{i+1}: guard attribute shares a line with code: {line.strip()}")
+                    t = line.strip()
+                    if t.startswith("#[cfg(hpke_verif)]") and allowed_stmt.match(t[len("#[cfg(hpke_verif)]"):].strip()):
+                        covered.add(i)      # attribute and hook statement on one line
+                    elif "#[cfg(hpke_verif)]" in line and not t.startswith("//"):
+                        misuse.append(f"{os.path.relpath(p, REPO)}:{i+1}: guard attribute shares a line with library code: {t}")
                     continue
                 covered.add(i)
                 j = i + 1
